@@ -674,13 +674,23 @@ pub trait IdmServerTransaction<'a> {
 
         let grace_valid = ct < (Duration::from_secs(iat as u64) + AUTH_TOKEN_GRACE_WINDOW);
 
+        // A session that is past its expiry is as dead as a revoked one. Expired sessions are
+        // only turned into revoked ones by the session consistency plugin the next time the
+        // entry is modified, so we have to look at the expiry here as well.
+        let ct_odt = time::OffsetDateTime::UNIX_EPOCH + ct;
+        let session_is_live = |state: &SessionState| match state {
+            SessionState::RevokedAt(_) => false,
+            SessionState::ExpiresAt(exp) => exp > &ct_odt,
+            SessionState::NeverExpires => true,
+        };
+
         let oauth2_session = entry
             .get_ava_as_oauth2session_map(Attribute::OAuth2Session)
             .and_then(|sessions| sessions.get(&session_id));
 
         if let Some(oauth2_session) = oauth2_session {
             // We have the oauth2 session, lets check it.
-            let oauth2_session_valid = !matches!(oauth2_session.state, SessionState::RevokedAt(_));
+            let oauth2_session_valid = session_is_live(&oauth2_session.state);
 
             if !oauth2_session_valid {
                 security_info!("The oauth2 session associated to this token is revoked.");
@@ -694,8 +704,7 @@ pub trait IdmServerTransaction<'a> {
                     .and_then(|sessions| sessions.get(&parent_session_id));
 
                 if let Some(uat_session) = uat_session {
-                    let parent_session_valid =
-                        !matches!(uat_session.state, SessionState::RevokedAt(_));
+                    let parent_session_valid = session_is_live(&uat_session.state);
                     if parent_session_valid {
                         security_info!(
                             "A valid parent and oauth2 session value exists for this token"
